@@ -1340,7 +1340,7 @@ class ContactHandler(Messenger, dbus.service.Object):
         if item is None:
             # Not one of our transfers (or already finished)
             raise RejectError(messages.RejectMsg.Reason.UNEXPECTED)
-        self.send_bundle_finished(transfer_id, 'refused with code %s', reason)
+        self.send_bundle_finished(str(transfer_id), item.ack_length, 'refused with code %s' % reason)
         self._tx_pend_ack.discard(item)
         if item in self._tx_pend_start:
             self._tx_pend_start.remove(item)
